@@ -551,14 +551,30 @@ class ConfigProp(core.Prop):
         tags = ["attr", "attr:" + site.attr, "out:" + out] + (["exc:" + err] if err else [])
         return core.Case(desc, line, out, key="A|" + site.name + "|" + json.dumps(j), nontrivial=nontrivial, tags=tags)
 
-    def _overlap_case(self, table, univ):
-        """table: [[key, ["i", v] | ["s", [v..]]], ...] in dict order"""
-        d = {}
+    def _overlap_case(self, table, univ, share=False, later=None):
+        """table: [[key, ["i", v] | ["s", [v..]]], ...] in dict order.
+        share: rows with equal contents are one and the same set object (finding K19b);
+        later: rows of a second table, built on top of the first one's row objects and handed to another
+        Grid *after* the measured grid was built (a history: the measured grid must not change)"""
+        d, pool = {}, {}
         for k, val in table:
-            d[k] = val[1] if val[0] == "i" else set(val[1])
+            if val[0] == "i":
+                d[k] = val[1]
+            elif share:
+                d[k] = pool.setdefault(tuple(val[1]), set(val[1]))
+            else:
+                d[k] = set(val[1])
         assert len(d) == len(table)
         try:
             grid = Grid(2, 2, overlapping=d)
+            if later is not None:
+                d2 = dict(d)                                  # the very same row objects
+                for k, val in later:
+                    d2[k] = val[1] if val[0] == "i" else set(val[1])
+                try:
+                    Grid(2, 2, overlapping=d2)
+                except Exception:  # noqa: BLE001
+                    pass
             closed = _canon_table(grid.overlapping)
             agents = {e: (GridWorldAgent(id=f"x{e}", encoding=e), GridWorldAgent(id=f"y{e}", encoding=e)) for e in univ}
             bits = []
@@ -580,11 +596,18 @@ class ConfigProp(core.Prop):
         raw = [[k, (["i", val[1]] if val[0] == "i" else ["s"] + list(val[1]))] for k, val in table]
         line = wire.enc(["cfg_overlap", raw, list(univ), impl_closed, impl_bits])
         desc = {"op": "overlap", "table": table, "univ": list(univ)}
+        if share:
+            desc["share"] = True
+        if later is not None:
+            desc["later"] = later
         pairs = {(k, o) for k, val in table for o in ([val[1]] if val[0] == "i" else val[1])}
         one_sided = any((o, k) not in pairs for k, o in pairs)
         tags = ["overlap", "overlap:keys=%d" % len(table)] + (["overlap:one-sided"] if one_sided else []) + \
-               (["overlap:int-valued"] if any(v[0] == "i" for _, v in table) else [])
-        return core.Case(desc, line, wire.enc(implv), key="O|" + json.dumps(table), nontrivial=one_sided, tags=tags)
+               (["overlap:int-valued"] if any(v[0] == "i" for _, v in table) else []) + \
+               (["overlap:shared-row-objects"] if share and len(pool) < sum(1 for _, v in table if v[0] == "s") else []) + \
+               (["overlap:later-grid-on-same-rows"] if later is not None else [])
+        return core.Case(desc, line, wire.enc(implv), key="O|" + json.dumps([table, share, later]),
+                         nontrivial=one_sided, tags=tags)
 
     def _box_case(self, box, j):
         is_int, shape, low, high = box["int"], tuple(box["shape"]), Fraction(*box["low"]), Fraction(*box["high"])
@@ -610,7 +633,7 @@ class ConfigProp(core.Prop):
         if desc["op"] == "attr":
             return self._attr_case(self.sites()[desc["site"]], desc["value"])
         if desc["op"] == "overlap":
-            return self._overlap_case(desc["table"], desc["univ"])
+            return self._overlap_case(desc["table"], desc["univ"], desc.get("share", False), desc.get("later"))
         if desc["op"] == "box":
             return self._box_case(desc["box"], desc["value"])
         raise ValueError(desc)
@@ -650,6 +673,23 @@ class ConfigProp(core.Prop):
                 else:
                     table.append([k, ["s", sorted(e for e in encs if rng.random() < 0.4)]])
             yield self._overlap_case(table, encs + [9])
+            # the same table with equal rows sharing one set object, and/or followed by a second grid whose
+            # table is built on the same row objects plus one-sided rows pointing at them
+            u = rng.random()
+            if u < 0.6:
+                later = None
+                if u < 0.4:
+                    later = [[rng.choice(encs + [n + 1]), rng.choice([["i", rng.choice(encs)],
+                                                                     ["s", sorted(e for e in encs if rng.random() < 0.5)]])]
+                             for _ in range(rng.randint(1, 2))]
+                    later = [list(x) for x in {x[0]: x for x in later}.values()]
+                yield self._overlap_case(table, encs + [9], share=rng.random() < 0.6, later=later)
+        # rows sharing one set object, exhaustively over {1,2,3} (finding K19b)
+        for s1 in subsets:
+            for other in options:
+                for keys in ((1, 2, 3), (2, 3, 1), (3, 1, 2)):
+                    table = [[keys[0], ["s", s1]], [keys[1], ["s", s1]]] + ([[keys[2], other]] if other else [])
+                    yield self._overlap_case(table, [1, 2, 3, 9], share=True)
         # 3. Box membership
         for box in box_kinds():
             for j in box_exhaustive(box):
